@@ -3,8 +3,7 @@
 (* the closed pipeline Source >> e >> Probe must produce in train mode and in *)
 (* apply mode (with the states of that training).                             *)
 EXTENDS Composition
-CONSTANTS Level, NChunks,
-          Sample   \* level 3 is a deterministic 1/Sample sample of the size-3 universe (145k expressions, hours of denotations)
+CONSTANTS Level, NChunks
 VARIABLES e, chunk
 \* NB: the universes take a (dummy) parameter on purpose - TLC evaluates every parameterless constant-level definition
 \* eagerly at start-up, also the ones a configuration does not use
@@ -17,8 +16,12 @@ FanIn(z) == Seqs(Seqs(MapReduces, Mappers), Stacks(Mappers, {2})) \cup Stacks(Se
 RightNested(z) == Seqs(Mappers, Seqs(Leaf, Stacks(Mappers, {2}) \cup Twice))
                   \cup Seqs(Mappers, Seqs(Seqs(Mappers, Mappers), Stacks(Mappers, {2})))
 E2(z) == Seqs(E1(z), Ops2(z)) \cup Stacks(Leaf, {2, 3}) \cup Seqs(Stacks(Leaf, {2}), Leaf) \cup FanIn(z) \cup RightNested(z)
-E3(z) == Seqs(Seqs(E1(z), E1(z)), Ops2(z)) \cup Seqs(E1(z), Seqs(E1(z), Ops2(z))) \cup Seqs(Seqs(E1(z), Stacks(Leaf, {2})), Leaf)
-         \cup Stacks(Seqs(Leaf, Leaf), {2}) \cup Seqs(Leaf, Stacks(Seqs(Leaf, Leaf), {2}))
+\* size-3 expressions over reduced alphabets (the full size-3 universe has 145k members: hours of denotations)
+L3(z) == Mappers \cup {E("train", TRUE, 0, <<>>), E("label", TRUE, 0, <<>>), E("apply", TRUE, 0, <<>>)}
+O3(z) == Leaf \cup Twice \cup Stacks(Mappers, {2})
+E3(z) == Seqs(Seqs(Leaf, Leaf), O3(z)) \cup Seqs(Leaf, Seqs(Leaf, O3(z)))
+         \cup Seqs(Seqs(Leaf, Stacks(Mappers, {2})), Leaf)
+         \cup Stacks(Seqs(L3(z), L3(z)), {2}) \cup Seqs(Mappers, Stacks(Seqs(L3(z), L3(z)), {2}))
 \* the universe is spread over NChunks initial states so that TLC's workers evaluate the denotations in parallel
 OpCode(o) == CASE o = "seq" -> 1 [] o = "mapper" -> 2 [] o = "apply" -> 3 [] o = "train" -> 4 [] o = "label" -> 5
                [] o = "dump" -> 6 [] o = "lmapper" -> 11 [] o = "lapply" -> 12 [] o = "ltrain" -> 13 [] o = "mapreduce" -> 7 [] o = "twice" -> 8 [] o = "stack" -> 9 [] OTHER -> 10
@@ -26,7 +29,7 @@ RECURSIVE Hsh(_)
 Hsh(x) == LET RECURSIVE Kids(_) Kids(i) == IF i > Len(x.kids) THEN 0 ELSE (7 * i + 1) * Hsh(x.kids[i]) + Kids(i + 1)
           IN (OpCode(x.op) + (IF x.sf THEN 11 ELSE 0) + 3 * x.k + Kids(1)) % 9973
 Universe(z) == CASE Level = 1 -> E1(z) [] Level = 2 -> E1(z) \cup E2(z)
-                 [] OTHER -> E1(z) \cup E2(z) \cup {u \in E3(z) : (Hsh(u) \div NChunks) % Sample = 0}
+                 [] OTHER -> E1(z) \cup E2(z) \cup E3(z)
 None == E("none", FALSE, 0, <<>>)
 Init == chunk \in 0..(NChunks - 1) /\ e = None
 Pick == e = None /\ e' \in {u \in Universe(chunk) : Hsh(u) % NChunks = chunk} /\ UNCHANGED chunk
